@@ -37,6 +37,8 @@ def check(chk, fx):
     pos_s(chk, fx)
     from .. import width
     width.check(chk, fx, classes=("LINECOL", "LEN"), minimum=10)
+    from .. import deporder
+    deporder.group(chk, fx, "DEPORD", "position bookkeeping keeps its order relative to the iterator advances", ["sp_update", "dfa_match", "get_current_term", "skip_whitespace", "consume_term"])
 
 
 # --------------------------------------------------------------------------------------------- POS-U
